@@ -42,6 +42,7 @@ func c12(c *rig.Ctx) {
 	st := newStats()
 	n := c.Pick(200, 6000)
 	parallel(n, workers, func(i int) { c12Maps(c, st, i, n) })
+	parallel(c.Pick(10, 100), workers, func(i int) { c12TailMerges(c, st, i) })
 	na := c.Pick(40, 600)
 	parallel(na, workers, func(i int) { c12AddressMap(c, st, i) })
 	parallel(na, workers, func(i int) { c12CommitClosure(c, st, i) })
@@ -55,6 +56,8 @@ func c12(c *rig.Ctx) {
 	c.Require(st.get("c12.canon.size_forced_boundary") > 0, "no content with giant values (size-forced boundaries)")
 	c.Require(st.get("c12.json.multi_chunk_compared") > 0 && st.get("c12.json.edits_changed") > 0, "no effective JSON edit on a multi-chunk document took the indexed path with comparable bytes")
 	c.Require(st.get("c12.blob.multi_level") > 0, "no multi-level blob")
+	c.Require(st.get("c12.tailmerge.right_truncated+last_leaf_not_first_child") > 0,
+		"no merge of a height>=3 right tree truncated at a non-boundary key with rows following in the result")
 }
 
 type c12Case struct {
@@ -400,6 +403,49 @@ func (k *c12Case) truncateRoutes(siC *shapeInfo) {
 		}
 		k2.compare(name, m, map[string]any{"cut_rank": cut, "cut_at_chunk_boundary": atBoundary, "style": style})
 		k.failed = k.failed || k2.failed
+	}
+}
+
+// c12TailMerges: conflict-free merges on >= 20 000-entry maps where one side is a tail truncation (tailmerge.go).
+func c12TailMerges(c *rig.Ctx, st *stats, idx int) {
+	r := c.SubRand("c12/tailmerge", idx)
+	name := fmt.Sprintf("c12/tailmerge%d", idx)
+	c.Case(name, nil)
+	tw := genTailWorld(r)
+	w := tw.w
+	for v := 0; v < 4; v++ {
+		t := tw.triple(r, false)
+		lm, rm := tw.mapFrom(t.left), tw.mapFrom(t.right)
+		th := rm.Height()
+		if t.mirrored {
+			th = lm.Height()
+		}
+		t.count(st, "c12", th)
+		target := newDict(w.kp.n())
+		for i := range target {
+			switch {
+			case t.left[i] == tw.base[i]:
+				target[i] = t.right[i]
+			default:
+				target[i] = t.left[i]
+			}
+		}
+		k := &c12Case{c: c, st: st, w: w, r: r, name: fmt.Sprintf("%s/v%d", name, v), target: target, canon: w.build(target)}
+		collisions := 0
+		merged, _, err := prolly.MergeMaps(bg, lm, rm, tw.bm, func(l, rr tree.Diff) (tree.Diff, bool) {
+			collisions++
+			return tree.Diff{}, false
+		})
+		if err != nil {
+			c.Violation("c12/map/merge-tail/error", "MergeMaps failed: "+err.Error(), map[string]any{"case": k.name, "world": w.desc, "mode": t.mode})
+			continue
+		}
+		k.compare("merge-tail", merged, map[string]any{"mode": t.mode, "mirrored_roles": t.mirrored, "collisions": collisions,
+			"truncated_side_height": th, "truncated_last_key_is_chunk_boundary": t.lastKeyNatural, "rows_after_truncated_last_key": t.rowsAfter,
+			"base": describeTree(w, tw.bm), "left": describeTree(w, lm), "right": describeTree(w, rm)})
+		if !k.failed && th >= 3 {
+			c.Distinct("tailmerge|" + merged.HashOf().String())
+		}
 	}
 }
 
